@@ -89,6 +89,22 @@ def sparse_event(rng):
     return out
 
 
+def fine_event(rng):
+    """A sparse map sampled with a tolerance of a few thousandths over a short sloping line (added after seed C19j: tolerances
+    below 0.01 silently raised to 0.01)."""
+    from gscrib.heightmaps import SparseHeightMap
+    P = [[x, y, round(rng.uniform(0.5, 2.0) * x + rng.uniform(-1, 1) * y, 3)] for x in range(0, 5) for y in range(0, 4)]
+    m = SparseHeightMap(np.array(P, dtype=float))
+    lines = []
+    for _ in range(3):
+        x0, y0 = round(rng.uniform(0.5, 3.0), 3), round(rng.uniform(0.5, 2.5), 3)
+        ang = rng.uniform(-0.5, 0.5)
+        ln = rng.uniform(0.06, 0.2)
+        lines.append([x0, y0, round(x0 + ln * math.cos(ang), 3), round(y0 + ln * math.sin(ang), 3)])
+    qxy = [(p[0], p[1], 1) for p in P[:8]]
+    return [_sparse_measure(m, P, qxy, lines, 1.0, rng.choice([0.004, 0.005, 0.008]))]
+
+
 def staircase_event(rng):
     """A sparse map whose heights step by exactly the tolerance from one sample to the next (added after seed C19i: `>` for
     `>=` in the path filter): whole-number probe data z = step * x on an integer grid, lines along X.  Every sample then
@@ -131,7 +147,7 @@ def _sparse_measure(m, P, qxy, lines, scale, tol):
             x = line[0] + (line[2] - line[0]) * j / nseg
             y = line[1] + (line[3] - line[1]) * j / nseg
             cand.append([zq(x), zq(y), zq(m.get_depth_at(x, y))])
-        paths.append({"line": [v * 1000 for v in line], "pts": [[zq(p[0]), zq(p[1]), zq(p[2])] for p in pts],
+        paths.append({"line": [int(round(v * 1000)) for v in line], "pts": [[zq(p[0]), zq(p[1]), zq(p[2])] for p in pts],
                       "requery": [zq(m.get_depth_at(float(p[0]), float(p[1]))) for p in pts], "cand": cand})
     return {"kind": "sparse", "exact": False, "w": 0, "h": 0, "max": 1, "scale": zq(scale), "tol": zq(tol), "img": [],
             "pts": [[p[0], p[1], zq(p[2])] for p in P], "queries": queries, "paths": paths}
@@ -157,6 +173,7 @@ def _chunk(job):
         ev += raster_event(rng) if (k + i) % 2 == 0 else sparse_event(rng)
     ev.append(flat_event(random.Random(sd * 3 + k)))
     ev += staircase_event(random.Random(sd * 11 + k))
+    ev += fine_event(random.Random(sd * 13 + k))
     return ev
 
 
